@@ -643,6 +643,10 @@ class NP2Converter:
         :return:
         """
         if self.check_completed and self.delete_original:
+            if self.nsamples < self.sr.ns:
+                # only the first nsamples samples were split and verified: the rest exists nowhere else
+                _logger.warning(f"Only {self.nsamples} of {self.sr.ns} samples were processed, keeping original file {self.ap_file}")
+                return
             _logger.info(f"Removing original file in folder {self.ap_file}")
             self.sr.close()
             self.ap_file.unlink()
